@@ -24,6 +24,8 @@ import (
 	"os"
 	"os/exec"
 	"path/filepath"
+	"regexp"
+	"sort"
 	"strings"
 	"sync"
 	"sync/atomic"
@@ -112,7 +114,59 @@ func newSysFixture(r *Run, rng *Rng) *sysFixture {
 	return f
 }
 
+// sysRace: the server binary under test is the race-detector build.
+func sysRace() bool { return os.Getenv("VERIF_SYS_RACE") != "" }
+
+func sysBinary() string {
+	if sysRace() {
+		return verifBin("sunlight.race")
+	}
+	return verifBin("sunlight")
+}
+
+var reRaceFrame = regexp.MustCompile(`(?m)^\s+(\S+?)\(.*\n\s+(/\S+?):(\d+)`)
+
+// collectRaces turns the race detector's reports of the server processes into
+// violations (stacks inside the repository) keyed by the pair of innermost
+// repository frames.
+func (f *sysFixture) collectRaces() {
+	if !sysRace() {
+		return
+	}
+	files, _ := filepath.Glob(filepath.Join(f.Base, "race-*"))
+	for _, fn := range files {
+		b, err := os.ReadFile(fn)
+		if err != nil {
+			continue
+		}
+		for _, blk := range strings.Split(string(b), "WARNING: DATA RACE")[1:] {
+			blk = strings.SplitN(blk, "==================", 2)[0]
+			f.R.Count("race_reports", 1)
+			var key []string
+			for _, st := range strings.Split(strings.TrimSpace(blk), "\n\n") {
+				for _, m := range reRaceFrame.FindAllStringSubmatch(st, -1) {
+					if strings.HasPrefix(m[2], envStr("VERIF_REPO", "/repo")+"/") {
+						key = append(key, m[1])
+						break
+					}
+				}
+				if len(key) == 2 {
+					break
+				}
+			}
+			if len(key) == 0 {
+				f.R.Count("race_reports_outside_repository", 1)
+				continue
+			}
+			sort.Strings(key)
+			id := fmt.Sprintf("data-race:%x", sha256.Sum256([]byte(strings.Join(key, "|"))))[:22]
+			f.violate(id, "the race detector reported a data race in the running server: %s\n%s", strings.Join(key, " <-> "), truncateStr(blk, 1500))
+		}
+	}
+}
+
 func (f *sysFixture) Close() {
+	f.collectRaces()
 	if f.stopPoll != nil {
 		close(f.stopPoll)
 		f.pollWG.Wait()
@@ -160,10 +214,13 @@ func (f *sysFixture) start(name string, cacheName string, periodMs int, inject s
 	lf, _ := os.Create(p.logp)
 	if inject != "" {
 		sys := strings.SplitN(inject, ":", 2)[0]
-		p.cmd = exec.Command("strace", "-f", "-qq", "-o", "/dev/null", "-e", "trace="+sys, "-e", "inject="+inject, verifBin("sunlight"), "-c", cfg)
+		p.cmd = exec.Command("strace", "-f", "-qq", "-o", "/dev/null", "-e", "trace="+sys, "-e", "inject="+inject, sysBinary(), "-c", cfg)
 		p.strace = true
 	} else {
-		p.cmd = exec.Command(verifBin("sunlight"), "-c", cfg)
+		p.cmd = exec.Command(sysBinary(), "-c", cfg)
+	}
+	if sysRace() {
+		p.cmd.Env = append(os.Environ(), "GORACE=halt_on_error=0 log_path="+filepath.Join(f.Base, "race-"+name))
 	}
 	p.cmd.Stdout, p.cmd.Stderr = lf, lf
 	p.cmd.Dir = f.Base
@@ -872,7 +929,7 @@ var _ = context.Background
 func TestSysAcks(t *testing.T) {
 	r := NewRun(t, envStr("VERIF_SYS_PROPERTY", "C02"), "sysacks")
 	r.Rule = "the built cmd/sunlight binary under 12 concurrent HTTP submitters (final certificates, precertificates, precertificate signing certificates, resubmissions) for a fixed number of submissions; each 200 answer: SCT verifies over the independently derived leaf, the checkpoint file read right after the answer covers the index; at the end every acknowledged entry is at its index with its timestamp in the published tree and every observed checkpoint is a prefix of it; distinct = (entry type, answered from a resubmission)"
-	if _, err := os.Stat(verifBin("sunlight")); err != nil {
+	if _, err := os.Stat(sysBinary()); err != nil {
 		r.Inconcl("sunlight binary not built: %v", err)
 		return
 	}
